@@ -440,6 +440,9 @@ pub struct SchedScenario {
     /// Run the project's benchmarks (`aiken bench`, same parallel runner) instead of its tests.
     #[serde(default)]
     pub bench: bool,
+    /// Run only this (module, test) — literally "one at a time".
+    #[serde(default)]
+    pub only: Option<(String, String)>,
 }
 
 pub struct SchedOutcome {
@@ -456,6 +459,7 @@ pub fn execute(sc: &SchedScenario) -> SchedOutcome {
     let opts = sc.opts.clone();
     let leg = sc.leg.clone();
     let bench = sc.bench;
+    let only = sc.only.clone();
     let width = match &leg {
         Leg::Sequential => 1,
         Leg::Controlled(_) => 1,
@@ -479,7 +483,7 @@ pub fn execute(sc: &SchedScenario) -> SchedOutcome {
                 if bench {
                     do_bench(&mut p, &cap, &root, &opts, 6)
                 } else {
-                    do_check(&mut p, &cap, &root, &opts, false)
+                    do_check_matching(&mut p, &cap, &root, &opts, false, only)
                 }
             }
             Err(e) => CheckObs {
@@ -662,6 +666,7 @@ impl Engine for SchedEngine {
             epoch,
             leg: Leg::Sequential,
             bench,
+            only: None,
         };
         let baseline = match guard(|| execute(&baseline_sc)) {
             Ok(b) => b,
@@ -679,6 +684,50 @@ impl Engine for SchedEngine {
                 report(ctx, &baseline_sc, &divs, &baseline.audit);
             }
         }
+        // "...the same results as running them one at a time": re-run up to three tests (failing
+        // unit tests first — they carry an assertion) alone, each in its own run, and compare
+        // everything a user sees of that test.
+        if !bench && n >= 2 {
+            let mut picks: Vec<&TestObs> = baseline.check.tests.iter().filter(|t| !t.success && t.kind == "unit").collect();
+            let others: Vec<&TestObs> = baseline.check.tests.iter().filter(|t| t.success || t.kind != "unit").collect();
+            if !others.is_empty() {
+                picks.push(others[ctx.rng.usize_below(others.len())]);
+            }
+            ctx.rng.shuffle(&mut picks);
+            picks.truncate(3);
+            for t in picks {
+                let alone_sc = SchedScenario {
+                    only: Some((t.module.clone(), t.name.clone())),
+                    ..baseline_sc.clone()
+                };
+                let Ok(alone) = guard(|| execute(&alone_sc)) else { continue };
+                ctx.stats.inc("one_at_a_time_reruns", 1);
+                ctx.stats.inc("evaluations", 1);
+                match alone.check.tests.iter().find(|a| a.key() == t.key()) {
+                    Some(a) => {
+                        let diff = t.diff(a);
+                        if !diff.is_empty() {
+                            report(
+                                ctx,
+                                &alone_sc,
+                                &[(
+                                    format!("batch-vs-alone:{}", diff[0].split(':').next().unwrap_or("")),
+                                    format!("{} in the whole run vs run alone: {}", t.key(), diff.join("; ")),
+                                )],
+                                &AuditReport::default(),
+                            );
+                        }
+                    }
+                    None => {
+                        // a name that is a substring of nothing else is always found with an
+                        // exact match; a missing result means the filter dropped it
+                        if alone.check.tests.is_empty() && alone.check.errors.is_empty() {
+                            ctx.stats.inc("one_at_a_time_not_selected", 1);
+                        }
+                    }
+                }
+            }
+        }
         let leg = if ctx.rng.chance(2, 3) {
             Leg::Controlled(gen_schedule(&mut ctx.rng, n))
         } else {
@@ -690,6 +739,7 @@ impl Engine for SchedEngine {
             epoch,
             leg,
             bench,
+            only: None,
         };
         if bench {
             ctx.stats.inc("benchmark_runs", 1);
@@ -815,6 +865,7 @@ impl Engine for SchedEngine {
             .unwrap_or(true);
         let baseline_sc = SchedScenario {
             leg: Leg::Sequential,
+            only: None,
             ..sc.clone()
         };
         let baseline = match guard(|| execute(&baseline_sc)) {
@@ -824,6 +875,30 @@ impl Engine for SchedEngine {
                 return;
             }
         };
+        if let Some((m, n)) = &sc.only {
+            // batch-vs-alone class: compare the test run alone with the same test in the batch
+            if let Ok(alone) = guard(|| execute(&sc)) {
+                let key = format!("{m}::{n}");
+                if let (Some(a), Some(t)) = (
+                    alone.check.tests.iter().find(|t| t.key() == key),
+                    baseline.check.tests.iter().find(|t| t.key() == key),
+                ) {
+                    let diff = t.diff(a);
+                    if !diff.is_empty() {
+                        report(
+                            ctx,
+                            &sc,
+                            &[(
+                                format!("batch-vs-alone:{}", diff[0].split(':').next().unwrap_or("")),
+                                format!("{key} in the whole run vs run alone: {}", diff.join("; ")),
+                            )],
+                            &AuditReport::default(),
+                        );
+                    }
+                }
+            }
+            return;
+        }
         for _ in 0..(if deterministic { 1 } else { 40 }) {
             match guard(|| execute(&sc)) {
                 Ok(o) => {
@@ -870,6 +945,7 @@ impl Engine for SchedEngine {
                 },
                 "ownership_audit": {
                     "hand_offs_audited": stats.get("audits"),
+                    "one_at_a_time_reruns": stats.get("one_at_a_time_reruns"),
                     "benchmark_runs": stats.get("benchmark_runs"),
                     "rc_allocations_audited": stats.get("rc_allocations_audited"),
                     "tests_scheduled": stats.get("tests_scheduled"),
